@@ -6,6 +6,7 @@ CONSTANTS
   Mode = "geometry"
   GeomRefs = {"allC", "allG", "CG"}
   MaxFrags = 2
+  DistMode = "zero"
   Variant = "design"
 CONSTRAINT Emit
 CHECK_DEADLOCK FALSE
